@@ -79,19 +79,22 @@ type Env struct {
 	N    *simnet.Net
 	R    *simrt.RNG
 
-	mu       sync.Mutex
-	viol     []Violation
-	Toks     map[int]*Tok
-	Subs     map[int]*SubState
-	Probes   map[string]int
-	servers  []*Server
-	clients  []*Client
-	Counter  int64
-	Done     chan struct{} // closed at teardown: harness producers stop
-	doneOnce sync.Once
-	invs     []inv
-	atStep   []stepHook
-	Notes    []string
+	mu         sync.Mutex
+	viol       []Violation
+	BarrierN   int // > 0: reader handlers wait for each other (Arrive)
+	barrierCnt int
+	barrierC   chan struct{}
+	Toks       map[int]*Tok
+	Subs       map[int]*SubState
+	Probes     map[string]int
+	servers    []*Server
+	clients    []*Client
+	Counter    int64
+	Done       chan struct{} // closed at teardown: harness producers stop
+	doneOnce   sync.Once
+	invs       []inv
+	atStep     []stepHook
+	Notes      []string
 }
 
 func NewEnv(seed uint64, cfg RunCfg, follow []string, lenient bool) *Env {
@@ -183,6 +186,30 @@ func (e *Env) Violations() []Violation {
 	e.mu.Lock()
 	defer e.mu.Unlock()
 	return append([]Violation(nil), e.viol...)
+}
+
+// Arrive implements an application-level barrier between handlers: with
+// BarrierN > 0 every caller blocks until BarrierN handlers have arrived (or the
+// world is torn down).
+func (e *Env) Arrive() {
+	e.mu.Lock()
+	if e.BarrierN == 0 {
+		e.mu.Unlock()
+		return
+	}
+	if e.barrierC == nil {
+		e.barrierC = make(chan struct{})
+	}
+	e.barrierCnt++
+	if e.barrierCnt == e.BarrierN {
+		close(e.barrierC)
+	}
+	c := e.barrierC
+	e.mu.Unlock()
+	select {
+	case <-c:
+	case <-e.Done:
+	}
 }
 
 func (e *Env) Probe(name string) {
@@ -311,6 +338,7 @@ func (e *Env) NewServer(addr string, o ServerOpts) *Server {
 	api := &API{e: e}
 	rpc.Register("T", api)
 	rpc.AliasMethod("T.AliasCall", "T.Call")
+	rpc.AliasMethod("T.SubAlias", "T.Sub")
 	mux := http.NewServeMux()
 	mux.Handle("/rpc", rpc)
 	if o.Mux != nil {
